@@ -84,3 +84,56 @@ def arg_validation(run, tier):
                                         "first": [str(events[i])[:200] for i in bad[:3]]}
     run.states += states
     run.drift += len(bad)
+
+
+def auto_min_count(run, tier, seed):
+    """Cli.tla AutoMinCount: `ska build --min-count auto` = `--min-count c`, c = cutoff of `ska cov` on the first
+    files of the first two paired samples, or 5 with fewer than two paired samples (drift only)."""
+    import random
+    from props.c20 import simulate_reads
+    from props.c12 import write_fastq
+    rng = random.Random(seed + 77)
+    tmp = vlib.shm_dir("auto")
+    events = []
+    try:
+        for i in range(2 if tier == "quick" else 6):
+            k = rng.choice([15, 21, 31])
+            npaired = 2 if i % 2 == 0 else 1
+            files = []
+            for sidx in range(npaired):
+                reads = simulate_reads(rng, rng.randint(900, 1300), rng.randint(15, 30), 0.01, k)
+                half = len(reads) // 2
+                f1, f2 = os.path.join(tmp, "a%d_%d_1.fastq" % (i, sidx)), os.path.join(tmp, "a%d_%d_2.fastq" % (i, sidx))
+                write_fastq(f1, reads[:half], ["I" * len(r) for r in reads[:half]])
+                write_fastq(f2, reads[half:], ["I" * len(r) for r in reads[half:]])
+                files.append((f1, f2))
+            cutoff = 0
+            if npaired >= 2:
+                rc, so, se = vlib.ska_cli(["cov", files[0][0], files[1][0], "-k", str(k)])
+                cut = [int(x.split("\t")[1]) for x in se.decode().splitlines() if x.startswith("Estimated cutoff")]
+                if rc != 0 or not cut:
+                    continue
+                cutoff = cut[0]
+            fl = os.path.join(tmp, "a%d.txt" % i)
+            open(fl, "w").write("".join("s%d\t%s\t%s\n" % (j, a, b_) for j, (a, b_) in enumerate(files)))
+            want = cutoff if npaired >= 2 else 5
+            tabs = []
+            for mc in ("auto", str(want)):
+                out = os.path.join(tmp, "a%d_%s" % (i, mc))
+                rc, so, se = vlib.ska_cli(["build", "-k", str(k), "-o", out, "-f", fl, "--min-count", mc])
+                if rc != 0:
+                    tabs.append(None)
+                    continue
+                t = vlib.parse_nk(vlib.ska_cli(["nk", "--full-info", out + ".skf"])[1].decode())
+                tabs.append([t["names"], t["rows"]])
+            events.append({"ev": "cli.auto", "npaired": npaired, "cov_cutoff": cutoff, "count_used": want,
+                           "same_table": tabs[0] is not None and tabs[0] == tabs[1]})
+    finally:
+        shutil.rmtree(tmp, ignore_errors=True)
+    if not events:
+        return
+    ok, bad, states = vlib.validate_trace("Trace_Cli", events, "extra-auto", shards=1, timeout=300)
+    run.extra["extra_cli_min_count_auto"] = {"events": len(events), "disagreements": len(bad),
+                                             "first": [str(events[i])[:200] for i in bad[:2]]}
+    run.states += states
+    run.drift += len(bad)
